@@ -183,7 +183,9 @@ def fixed_programs():
     envs = [{"x": (1, 2), "y": 1, "a": 1, "b": 2, "c": 3, "uid": "u1", "index": 1, "order_id": 2},
             {"x": 7, "y": (1, (2, 3)), "a": 2, "b": 3, "c": 4, "uid": "u2", "index": 0, "order_id": 0},
             {"x": 0.5, "y": 0.5, "a": 0.5, "b": 0.5, "c": 0.5, "uid": "u3", "index": 0.5, "order_id": 0.5},
-            {"x": 0.05, "y": 0.05, "a": 0, "b": 0, "c": 0, "uid": "u4", "index": 0, "order_id": 0}]
+            {"x": 0.05, "y": 0.05, "a": 0, "b": 0, "c": 0, "uid": "u4", "index": 0, "order_id": 0},
+            {"x": 1, "y": float("nan"), "a": 1, "b": 0, "c": 0, "uid": "u5", "index": 0, "order_id": 0},
+            {"x": 1, "y": float("inf"), "a": float("nan"), "b": 0, "c": 0, "uid": "u6", "index": 0, "order_id": 0}]
     shapes = [
         # identifiers that occur ONLY inside a nested tuple / only inside a tuple
         prog(M.cmp_(I("x"), "in", T([T([I("a"), L("1")]), T([I("b"), L("2")])]))),
@@ -197,6 +199,10 @@ def fixed_programs():
         # the experiment's own name as the only field, inside a tuple
         prog(M.cmp_(L("1"), "in", T([I("exp"), L("2")]))),
         prog(M.cmp_(I("y"), "in", I("x")), splitters=["y"]),
+        # negated ordering comparisons (not the same question as the complementary operator when a NaN comes in)
+        prog(M.not_(M.cmp_(I("y"), ">", L("4")))),
+        prog(M.and_(M.not_(M.cmp_(I("y"), "<=", M.lit_float("0.5"))), M.not_(M.cmp_(L("3"), "<", I("y")))), splitters=["uid"]),
+        prog(M.or_(M.not_(M.cmp_(I("y"), ">=", I("a"))), M.cmp_(I("y"), "!=", I("y")))),
         # numeric literals a formatter might be tempted to rewrite
         M.program("exp", M.if_([(M.cmp_(I("y"), "==", M.lit_float("0.5")), M.ret([(M.lit_float("0.5"), "0.5"), (M.lit_float("1.50"), "0.25")])),
                                 (M.cmp_(I("y"), "<", M.lit_float("0.10")), M.ret([(M.lit_int("007"), "1"), (M.lit_float("1.0"), "1.0")]))],
